@@ -177,6 +177,21 @@ fn write_files(files: &Value, dir: &str, cas: &[CaServer], ctl: &str) -> Result<
 }
 
 pub fn gen_key(kt: &str) -> Result<acme_common::crypto::KeyPair, String> {
+	// key files written by another ACME client: valid keys of a kind acmed's loader refuses
+	if kt == "foreign-rsa3072" || kt == "foreign-secp256k1" {
+		let inner_key = if kt == "foreign-rsa3072" {
+			PKey::from_rsa(openssl::rsa::Rsa::generate(3072).map_err(|e| format!("{e}"))?)
+		} else {
+			let g = openssl::ec::EcGroup::from_curve_name(openssl::nid::Nid::SECP256K1)
+				.map_err(|e| format!("{e}"))?;
+			PKey::from_ec_key(openssl::ec::EcKey::generate(&g).map_err(|e| format!("{e}"))?)
+		}
+		.map_err(|e| format!("{e}"))?;
+		return Ok(acme_common::crypto::KeyPair {
+			key_type: acme_common::crypto::KeyType::Rsa2048,
+			inner_key,
+		});
+	}
 	let kt: acme_common::crypto::KeyType = kt
 		.parse()
 		.map_err(|e: acme_common::error::Error| e.message)?;
@@ -354,6 +369,9 @@ fn pre_op(op: &Value, dir: &str, cas: &[CaServer], ctl: &str) -> Result<Value, S
 			let _ = std::fs::remove_file(path_of("path"));
 			Ok(json!({"op": name}))
 		}
+		"observe_pair" => Ok(
+			json!({"op": name, "observed": observe_pair(&path_of("cert_path"), &path_of("key_path"))}),
+		),
 		"truncate" => {
 			let p = path_of("path");
 			let data = std::fs::read(&p).map_err(|e| format!("{e}"))?;
